@@ -200,18 +200,24 @@ Lemma cas_before_setctx_refuted :
 Proof. exists ([0] ++ repeat 1 5 ++ repeat 0 5). vm_compute. repeat split; reflexivity. Qed.
 
 (* ================================================================================================ *)
-(* F. Close against a write blocked on a stalled peer (repository shape: lock released before Write) *)
+(* F. Close against writes blocked on stalled peers and token waits (repository shape: lock released   *)
+(*    before Write, token wait tied to the bridge context)                                            *)
 (* ================================================================================================ *)
 Definition frh (t : fth) : list unit := match f_pc t with WHave | WIO true | WRel => [tt] | _ => [] end.
 Definition fkh (t : fth) : list fpc := match f_pc t with KClose | KUnlock => [f_pc t] | _ => [] end.
 Definition frank (t : fth) : nat :=
-  match f_pc t with WLock => 3 | WHave => 2 | WIO _ => 1 | WRel => 1 | WDone => 0 | KLock => 3 | KClose => 2 | KUnlock => 1 | KDone => 0 end.
+  match f_pc t with
+  | WThrottle => 4 | WLock => 3 | WHave => 2 | WIO _ => 1 | WRel => 1 | WDone => 0
+  | KLock => 4 | KClose => 3 | KUnlock => 2 | KCancel => 1 | KDone => 0
+  end.
 Definition fsum (ls : list fth) : nat := fold_right (fun t n => frank t + n) 0 ls.
 Definition f_releasing (t : fth) : Prop := f_pc t <> WIO true /\ f_pc t <> WRel.
+Definition fth_ok (sh : fsh) (t : fth) : Prop :=
+  match f_pc t with KUnlock | KCancel => f_closed sh = true | KDone => f_closed sh = true /\ f_cancel sh = true | _ => True end.
 
 Definition FInv (s : fsh * list fth) : Prop :=
   let sh := fst s in let ls := snd s in
-  f_readers sh = length (flat_map frh ls) /\ Forall f_releasing ls /\
+  f_readers sh = length (flat_map frh ls) /\ Forall f_releasing ls /\ Forall (fth_ok sh) ls /\
   ( (f_w sh = false /\ flat_map fkh ls = []) \/ (f_w sh = true /\ f_readers sh = 0 /\ exists k, flat_map fkh ls = [k]) ).
 
 Lemma fsum_upd : forall (l : list fth) i x x', nth_error l i = Some x -> fsum (upd_nth i x' l) + frank x = fsum l + frank x'.
@@ -227,43 +233,67 @@ Proof.
   apply app_eq_nil in H. destruct H as [Hh Ht]. destruct Hin as [<-|Hin]; [exact Hh|apply IH; assumption].
 Qed.
 
-Lemma finv_step s i : FInv s -> FInv (sys_step _ _ (fstep false) s i).
+Lemma fth_ok_mono sh sh' t :
+  (f_closed sh = true -> f_closed sh' = true) -> (f_cancel sh = true -> f_cancel sh' = true) -> fth_ok sh t -> fth_ok sh' t.
+Proof. unfold fth_ok. destruct (f_pc t); auto. intros H1 H2 [Ha Hb]. auto. Qed.
+
+Lemma finv_step s i : FInv s -> FInv (sys_step _ _ (fstep false true) s i).
 Proof.
-  destruct s as [sh ls]. unfold FInv, sys_step. cbn [fst snd]. intros HI. pose proof HI as (Hr & Hrel & Hk).
+  destruct s as [sh ls]. unfold FInv, sys_step. cbn [fst snd]. intros HI. pose proof HI as (Hr & Hrel & Hok & Hk).
   destruct (nth_error ls i) as [x|] eqn:En; [|exact HI].
   assert (Hx : f_releasing x) by (eapply Forall_nth; eauto).
+  assert (Hxo : fth_ok sh x) by (eapply Forall_nth; eauto).
   destruct (fm_upd2 frh ls i x En) as (a & b & Ha & Hupd).
   destruct (fm_upd2 fkh ls i x En) as (a' & b' & Ha' & Hupd').
   rewrite Ha in Hr. rewrite !app_length in Hr.
-  destruct x as [stall pc]. destruct sh as [rd w cl]. unfold fstep, fwith.
-  cbn [f_pc f_stall f_readers f_w f_closed] in Hr, Hk |- *. unfold f_releasing in Hx. cbn [f_pc] in Hx.
-  destruct pc as [| |h| | | | | |]; cbn [frh fkh f_pc app length] in Ha, Hr, Ha'; cbn [fst snd f_readers f_w f_closed].
+  destruct x as [stall starved pc]. destruct sh as [rd w cl cn]. unfold fstep, fwith.
+  cbn [f_pc f_stall f_starved f_readers f_w f_closed f_cancel] in Hr, Hk |- *. unfold f_releasing in Hx. cbn [f_pc] in Hx.
+  unfold fth_ok in Hxo. cbn [f_pc f_closed f_cancel] in Hxo.
+  (* the steps that leave the shared state unchanged keep every per-thread fact *)
+  assert (Hsame : forall pc', frh {| f_stall := stall; f_starved := starved; f_pc := pc' |} = frh {| f_stall := stall; f_starved := starved; f_pc := pc |} ->
+                    fkh {| f_stall := stall; f_starved := starved; f_pc := pc' |} = fkh {| f_stall := stall; f_starved := starved; f_pc := pc |} ->
+                    f_releasing {| f_stall := stall; f_starved := starved; f_pc := pc' |} ->
+                    fth_ok {| f_readers := rd; f_w := w; f_closed := cl; f_cancel := cn |} {| f_stall := stall; f_starved := starved; f_pc := pc' |} ->
+                    let ls' := upd_nth i {| f_stall := stall; f_starved := starved; f_pc := pc' |} ls in
+                    rd = length (flat_map frh ls') /\ Forall f_releasing ls' /\
+                    Forall (fth_ok {| f_readers := rd; f_w := w; f_closed := cl; f_cancel := cn |}) ls' /\
+                    ((w = false /\ flat_map fkh ls' = []) \/ (w = true /\ rd = 0 /\ exists k, flat_map fkh ls' = [k]))).
+  { intros pc' E1 E2 H3 H4 ls'. unfold ls'. rewrite Hupd, Hupd', E1, E2, <- Ha, <- Ha'.
+    destruct HI as (Hr0 & _ & _ & Hk0). cbn [f_readers f_w] in Hr0, Hk0.
+    split; [exact Hr0|]. split; [apply Forall_upd; assumption|]. split; [apply Forall_upd; assumption|exact Hk0]. }
+  destruct pc as [| | |h| | | | | | |]; cbn [frh fkh f_pc app length] in Ha, Hr, Ha'; cbn [fst snd f_readers f_w f_closed f_cancel andb].
+  - (* WThrottle *)
+    destruct cn; cbn [fst snd].
+    + apply Hsame; [reflexivity|reflexivity|split; discriminate|exact I].
+    + destruct starved; cbn [fst snd]; [rewrite (upd_nth_same ls i _ En); exact HI|].
+      apply Hsame; [reflexivity|reflexivity|split; discriminate|exact I].
   - (* WLock *)
-    destruct w; cbn [fst snd f_readers f_w f_closed].
+    destruct w; cbn [fst snd f_readers f_w f_closed f_cancel].
     + rewrite (upd_nth_same ls i _ En). exact HI.
     + split; [rewrite Hupd, !app_length; unfold frh; cbn; cbn in Hr; lia|].
       split; [apply Forall_upd; [exact Hrel|split; discriminate]|].
+      split; [apply Forall_upd; [|exact I]; eapply Forall_impl; [|exact Hok]; intros t; apply fth_ok_mono; auto|].
       rewrite Hupd'. cbn [fkh f_pc app]. rewrite <- Ha'. destruct Hk as [Hk|(Hw & _)]; [left; exact Hk|discriminate].
   - (* WHave: release, then write *)
     split; [rewrite Hupd, !app_length; unfold frh; cbn; cbn in Hr; lia|].
     split; [apply Forall_upd; [exact Hrel|split; discriminate]|].
+    split; [apply Forall_upd; [|exact I]; eapply Forall_impl; [|exact Hok]; intros t; apply fth_ok_mono; auto|].
     rewrite Hupd'. cbn [fkh f_pc app]. rewrite <- Ha'.
     destruct Hk as [Hk|(Hw & H0 & Hk)]; [left; exact Hk|]. cbn in Hr. lia.
   - (* WIO *)
     destruct Hx as [Hx _]. destruct h; [congruence|].
-    destruct (stall && negb cl); cbn [fst snd f_readers f_w f_closed].
+    destruct (stall && negb cl); cbn [fst snd f_readers f_w f_closed f_cancel].
     + rewrite (upd_nth_same ls i _ En). exact HI.
-    + split; [rewrite Hupd, !app_length; unfold frh; cbn; cbn in Hr; lia|].
-      split; [apply Forall_upd; [exact Hrel|split; discriminate]|].
-      rewrite Hupd'. cbn [fkh f_pc app]. rewrite <- Ha'. exact Hk.
+    + apply Hsame; [reflexivity|reflexivity|split; discriminate|exact I].
   - (* WRel *) destruct Hx as [_ Hx]. congruence.
   - (* WDone *) rewrite (upd_nth_same ls i _ En). exact HI.
   - (* KLock *)
-    destruct (w || (0 <? rd)) eqn:Eb; cbn [fst snd f_readers f_w f_closed].
+    destruct (w || (0 <? rd)) eqn:Eb; cbn [fst snd f_readers f_w f_closed f_cancel].
     + rewrite (upd_nth_same ls i _ En). exact HI.
     + apply orb_false_iff in Eb. destruct Eb as [Ew Erd]. apply Nat.ltb_ge in Erd. subst w.
       split; [rewrite Hupd, !app_length; unfold frh; cbn; cbn in Hr; lia|].
       split; [apply Forall_upd; [exact Hrel|split; discriminate]|].
+      split; [apply Forall_upd; [|exact I]; eapply Forall_impl; [|exact Hok]; intros t; apply fth_ok_mono; auto|].
       right. split; [reflexivity|]. split; [lia|].
       destruct Hk as [(_ & Hk)|(Hw & _)]; [|discriminate].
       rewrite Ha' in Hk. apply app_eq_nil in Hk. destruct Hk as (-> & ->).
@@ -271,104 +301,156 @@ Proof.
   - (* KClose *)
     split; [rewrite Hupd, !app_length; unfold frh; cbn; cbn in Hr; lia|].
     split; [apply Forall_upd; [exact Hrel|split; discriminate]|].
+    split; [apply Forall_upd; [|reflexivity]; eapply Forall_impl; [|exact Hok]; intros t; apply fth_ok_mono; auto|].
     destruct Hk as [(_ & Hk)|(Hw & H0 & k & Hk)]; [rewrite Ha' in Hk; exfalso; eapply app_mid_nil; exact Hk|].
     rewrite Ha' in Hk. cbn [app] in Hk. apply app_single in Hk. destruct Hk as (-> & -> & _).
     right. split; [exact Hw|]. split; [exact H0|]. exists KUnlock. rewrite Hupd'. reflexivity.
-  - (* KUnlock *)
+  - (* KUnlock: the forwarder was closed by this closer's previous step *)
     split; [rewrite Hupd, !app_length; unfold frh; cbn; cbn in Hr; lia|].
     split; [apply Forall_upd; [exact Hrel|split; discriminate]|].
+    split; [apply Forall_upd; [|exact Hxo]; eapply Forall_impl; [|exact Hok]; intros t; apply fth_ok_mono; auto|].
     destruct Hk as [(_ & Hk)|(Hw & H0 & k & Hk)]; [rewrite Ha' in Hk; exfalso; eapply app_mid_nil; exact Hk|].
     rewrite Ha' in Hk. cbn [app] in Hk. apply app_single in Hk. destruct Hk as (-> & -> & _).
     left. split; [reflexivity|]. rewrite Hupd'. reflexivity.
+  - (* KCancel *)
+    split; [rewrite Hupd, !app_length; unfold frh; cbn; cbn in Hr; lia|].
+    split; [apply Forall_upd; [exact Hrel|split; discriminate]|].
+    split; [apply Forall_upd; [|split; [exact Hxo|reflexivity]]; eapply Forall_impl; [|exact Hok]; intros t; apply fth_ok_mono; auto|].
+    rewrite Hupd'. cbn [fkh f_pc app]. rewrite <- Ha'. exact Hk.
   - (* KDone *) rewrite (upd_nth_same ls i _ En). exact HI.
 Qed.
 
 Lemma finv_init ts : forallb f_initial ts = true -> FInv (finit, ts).
 Proof.
-  intros Hi. rewrite forallb_forall in Hi. unfold FInv. cbn [fst snd finit f_readers f_w f_closed].
+  intros Hi. rewrite forallb_forall in Hi. unfold FInv. cbn [fst snd finit f_readers f_w f_closed f_cancel].
   assert (Hfr : flat_map frh ts = [] /\ flat_map fkh ts = []).
   { induction ts as [|t r IH]; cbn; [auto|].
     assert (Ht : f_initial t = true) by (apply Hi; left; reflexivity).
     destruct IH as [I1 I2]; [intros y Hy; apply Hi; right; exact Hy|].
     unfold f_initial in Ht. unfold frh, fkh. destruct (f_pc t); try discriminate; cbn; auto. }
-  destruct Hfr as [H1 H2]. rewrite H1. split; [reflexivity|]. split; [|left; auto].
-  rewrite Forall_forall. intros t Ht. apply Hi in Ht. unfold f_initial in Ht. unfold f_releasing.
-  destruct (f_pc t); try discriminate; split; discriminate.
+  destruct Hfr as [H1 H2]. rewrite H1. split; [reflexivity|]. split; [|split; [|left; auto]].
+  - rewrite Forall_forall. intros t Ht. apply Hi in Ht. unfold f_initial in Ht. unfold f_releasing.
+    destruct (f_pc t); try discriminate; split; discriminate.
+  - rewrite Forall_forall. intros t Ht. apply Hi in Ht. unfold f_initial in Ht. unfold fth_ok. destruct (f_pc t); try discriminate; exact I.
 Qed.
 
-(* progress: while a Close is pending, some thread has a step that strictly lowers its remaining work — whatever the stall
-   pattern of the writers: the only threads that can be blocked on I/O hold no lock *)
-Lemma f_progress sh ls : FInv (sh, ls) -> (exists t, In t ls /\ f_close_pending t = true) ->
-  exists i x, nth_error ls i = Some x /\ frank (fst (fstep false x sh)) < frank x.
+(* progress: while some thread has not finished and the bridge is being (or has been) closed, some thread has a step that
+   strictly lowers its remaining work — whatever the stall / starvation pattern: a thread blocked on I/O holds no lock, and
+   every blocking wait is ended by what Close does (closing the forwarder, cancelling the context) *)
+Lemma f_progress sh ls : FInv (sh, ls) -> (exists t, In t ls /\ f_is_closer t = true) -> (exists t, In t ls /\ f_finished t = false) ->
+  exists i x, nth_error ls i = Some x /\ frank (fst (fstep false true x sh)) < frank x.
 Proof.
-  intros (Hr & Hrel & Hk) (t & Hin & Hp). cbn [fst snd] in *.
-  destruct Hk as [(Hw & Hk)|(Hw & H0 & k & Hk)].
-  - (* nobody holds the write lock: the pending closer is at KLock *)
-    assert (Hkt : fkh t = []) by (eapply fm_nil_in; eauto).
-    assert (Hpc : f_pc t = KLock).
-    { unfold f_close_pending in Hp. unfold fkh in Hkt. destruct (f_pc t); try discriminate; reflexivity. }
-    destruct (f_readers sh) as [|n] eqn:Er.
-    + destruct (In_nth_error _ _ Hin) as [i Hi]. exists i, t. split; [exact Hi|].
-      unfold fstep, frank. rewrite Hpc, Hw, Er. cbn. lia.
-    + (* a reader holds the lock: it is at WHave and releases unconditionally *)
-      assert (Hne : flat_map frh ls <> []) by (intros E; rewrite E in Hr; cbn in Hr; lia).
+  intros (Hr & Hrel & Hok & Hk) (kc & Hkin & Hkc) (u & Huin & Hu). cbn [fst snd] in *.
+  assert (Hstep : forall x, In x ls -> frank (fst (fstep false true x sh)) < frank x ->
+                    exists i x0, nth_error ls i = Some x0 /\ frank (fst (fstep false true x0 sh)) < frank x0).
+  { intros x Hx Hlt. destruct (In_nth_error _ _ Hx) as [i Hi]. exists i, x. auto. }
+  destruct (existsb f_close_pending ls) eqn:Ep.
+  - (* a Close is pending *)
+    apply existsb_exists in Ep. destruct Ep as (t & Hin & Hp).
+    destruct Hk as [(Hw & Hk)|(Hw & H0 & k & Hk)].
+    + assert (Hkt : fkh t = []) by (eapply fm_nil_in; eauto).
+      unfold f_close_pending in Hp. unfold fkh in Hkt.
+      destruct (f_pc t) eqn:Hpc; try discriminate.
+      * (* KLock *)
+        destruct (f_readers sh) as [|n] eqn:Er.
+        { apply (Hstep t Hin). unfold fstep, frank. rewrite Hpc, Hw, Er. cbn. lia. }
+        assert (Hne : flat_map frh ls <> []) by (intros E; rewrite E in Hr; cbn in Hr; lia).
+        apply fm_nonempty in Hne. destruct Hne as (x & Hx & Hf).
+        rewrite Forall_forall in Hrel. destruct (Hrel x Hx) as [Hn1 Hn2].
+        assert (Hpx : f_pc x = WHave).
+        { unfold frh in Hf. destruct (f_pc x) as [| | |h| | | | | | |]; try congruence. destruct h; congruence. }
+        apply (Hstep x Hx). unfold fstep, frank. rewrite Hpx. cbn. lia.
+      * (* KCancel *) apply (Hstep t Hin). unfold fstep, frank. rewrite Hpc. cbn. lia.
+    + assert (Hne : flat_map fkh ls <> []) by (rewrite Hk; discriminate).
       apply fm_nonempty in Hne. destruct Hne as (x & Hx & Hf).
-      rewrite Forall_forall in Hrel. destruct (Hrel x Hx) as [Hn1 Hn2].
-      assert (Hpx : f_pc x = WHave).
-      { unfold frh in Hf. destruct (f_pc x) as [| |h| | | | | |]; try congruence. destruct h; congruence. }
-      destruct (In_nth_error _ _ Hx) as [i Hi]. exists i, x. split; [exact Hi|].
-      unfold fstep, frank. rewrite Hpx. cbn. lia.
-  - (* a closer holds the write lock: it is at KClose / KUnlock and never blocks *)
-    assert (Hne : flat_map fkh ls <> []) by (rewrite Hk; discriminate).
-    apply fm_nonempty in Hne. destruct Hne as (x & Hx & Hf).
-    destruct (In_nth_error _ _ Hx) as [i Hi]. exists i, x. split; [exact Hi|].
-    unfold fkh in Hf. unfold fstep, frank. destruct (f_pc x); try congruence; cbn; lia.
+      apply (Hstep x Hx). unfold fkh in Hf. unfold fstep, frank. destruct (f_pc x); try congruence; cbn; lia.
+  - (* every closer has returned: the forwarder is closed and the context cancelled *)
+    assert (Hnp : forall t, In t ls -> f_close_pending t = false).
+    { intros t Ht. destruct (f_close_pending t) eqn:E; [|reflexivity].
+      assert (existsb f_close_pending ls = true) by (apply existsb_exists; exists t; auto). congruence. }
+    assert (Hdone : f_closed sh = true /\ f_cancel sh = true).
+    { rewrite Forall_forall in Hok. specialize (Hok kc Hkin). specialize (Hnp kc Hkin).
+      unfold fth_ok in Hok. unfold f_is_closer in Hkc. unfold f_close_pending in Hnp. destruct (f_pc kc); try discriminate. exact Hok. }
+    destruct Hdone as [Hcl Hcn].
+    assert (Hw : f_w sh = false).
+    { destruct Hk as [(Hw & _)|(Hw & _ & k & Hk)]; [exact Hw|]. exfalso.
+      assert (Hne : flat_map fkh ls <> []) by (rewrite Hk; discriminate).
+      apply fm_nonempty in Hne. destruct Hne as (x & Hx & Hf). specialize (Hnp x Hx).
+      unfold fkh in Hf. unfold f_close_pending in Hnp. destruct (f_pc x); try discriminate; congruence. }
+    specialize (Hnp u Huin). rewrite Forall_forall in Hrel. destruct (Hrel u Huin) as [Hn1 Hn2].
+    apply (Hstep u Huin). unfold f_finished in Hu. unfold f_close_pending in Hnp. unfold fstep, frank.
+    destruct (f_pc u) as [| | |h| | | | | | |] eqn:Hpc; try discriminate; cbn [andb].
+    + rewrite Hcn. cbn. lia.
+    + rewrite Hw. cbn. lia.
+    + cbn. lia.
+    + destruct h; [congruence|]. rewrite Hcl. rewrite andb_false_r. cbn. lia.
+    + congruence.
 Qed.
 
-Lemma fsum_zero_no_pending ls : fsum ls = 0 -> forall t, In t ls -> f_close_pending t = false.
+Lemma fstep_closer t sh : f_is_closer (fst (fstep false true t sh)) = f_is_closer t.
 Proof.
-  induction ls as [|h r IH]; intros H t Hin; [destruct Hin|].
-  unfold fsum in H. cbn [fold_right] in H. fold (fsum r) in H.
-  destruct Hin as [<-|Hin]; [|apply IH; [lia|exact Hin]].
-  unfold frank in H. unfold f_close_pending. destruct (f_pc h); try reflexivity; lia.
+  unfold fstep, f_is_closer, fwith. destruct (f_pc t) as [| | |h| | | | | | |] eqn:E; cbn [f_pc fst];
+    repeat match goal with |- context [if ?c then _ else _] => destruct c end; cbn [fst f_pc]; try rewrite E; reflexivity.
 Qed.
 
-Lemma f_close_completes_from : forall n sh ls, FInv (sh, ls) -> fsum ls <= n ->
-  exists sched, forallb (fun t => negb (f_close_pending t)) (snd (run _ _ (fstep false) (sh, ls) sched)) = true.
+Lemma closer_preserved sh ls i :
+  (exists t, In t ls /\ f_is_closer t = true) ->
+  exists t, In t (snd (sys_step _ _ (fstep false true) (sh, ls) i)) /\ f_is_closer t = true.
 Proof.
-  induction n as [|n IH]; intros sh ls HI Hn.
-  - exists []. cbn. apply forallb_forall. intros t Ht. rewrite (fsum_zero_no_pending ls) by (lia || exact Ht). reflexivity.
-  - destruct (forallb (fun t => negb (f_close_pending t)) ls) eqn:Eall.
+  intros (t & Hin & Hc). unfold sys_step. cbn [fst snd].
+  destruct (nth_error ls i) as [x|] eqn:En; [|exists t; auto].
+  destruct (fstep false true x sh) as [x' sh'] eqn:Es. cbn [snd].
+  assert (Hx' : f_is_closer x' = f_is_closer x) by (pose proof (fstep_closer x sh) as H; rewrite Es in H; exact H).
+  clear Es. revert i En. induction ls as [|h r IH]; intros [|j] En; cbn in *; try discriminate.
+  - inversion En; subst. destruct Hin as [<-|Hin]; [exists x'; split; [left; reflexivity|congruence]|exists t; auto].
+  - destruct Hin as [<-|Hin]; [exists h; auto|]. destruct (IH Hin j En) as (y & Hy & Hyc). exists y; auto.
+Qed.
+
+Lemma fsum_zero_finished ls : fsum ls = 0 -> forallb f_finished ls = true.
+Proof.
+  induction ls as [|h r IH]; intros H; [reflexivity|].
+  unfold fsum in H. cbn [fold_right] in H. fold (fsum r) in H. cbn [forallb]. rewrite IH by lia.
+  unfold frank in H. unfold f_finished. destruct (f_pc h); try reflexivity; lia.
+Qed.
+
+Lemma f_all_complete_from : forall n sh ls, FInv (sh, ls) -> (exists t, In t ls /\ f_is_closer t = true) -> fsum ls <= n ->
+  exists sched, forallb f_finished (snd (run _ _ (fstep false true) (sh, ls) sched)) = true.
+Proof.
+  induction n as [|n IH]; intros sh ls HI Hc Hn.
+  - exists []. cbn. apply fsum_zero_finished. lia.
+  - destruct (forallb f_finished ls) eqn:Eall.
     + exists []. exact Eall.
-    + assert (Hex : exists t, In t ls /\ f_close_pending t = true).
-      { destruct (existsb f_close_pending ls) eqn:Ee.
-        - apply existsb_exists in Ee. exact Ee.
-        - exfalso. assert (forallb (fun t => negb (f_close_pending t)) ls = true); [|congruence].
-          apply forallb_forall. intros t Ht. destruct (f_close_pending t) eqn:Ep; [|reflexivity].
-          assert (existsb f_close_pending ls = true) by (apply existsb_exists; exists t; auto). congruence. }
-      destruct (f_progress sh ls HI Hex) as (i & x & Hi & Hlt).
+    + assert (Hex : exists t, In t ls /\ f_finished t = false).
+      { clear - Eall. induction ls as [|h r IH]; cbn in Eall; [discriminate|].
+        destruct (f_finished h) eqn:E; [|exists h; split; [left; reflexivity|exact E]].
+        cbn in Eall. destruct (IH Eall) as (t & Ht & Hf). exists t; split; [right; exact Ht|exact Hf]. }
+      destruct (f_progress sh ls HI Hc Hex) as (i & x & Hi & Hlt).
       pose proof (finv_step (sh, ls) i HI) as HI'.
-      unfold sys_step in HI'. cbn [fst snd] in HI'. rewrite Hi in HI'.
-      destruct (fstep false x sh) as [x' sh'] eqn:Es. cbn [fst] in Hlt.
+      pose proof (closer_preserved sh ls i Hc) as Hc'.
+      unfold sys_step in HI', Hc'. cbn [fst snd] in HI', Hc'. rewrite Hi in HI', Hc'.
+      destruct (fstep false true x sh) as [x' sh'] eqn:Es. cbn [fst snd] in Hlt, Hc'.
       pose proof (fsum_upd ls i x x' Hi) as Hsum.
-      destruct (IH sh' (upd_nth i x' ls) HI') as [sched Hs]; [lia|].
+      destruct (IH sh' (upd_nth i x' ls) HI' Hc') as [sched Hs]; [lia|].
       exists (i :: sched). cbn [run fold_left]. unfold sys_step at 2. cbn [fst snd]. rewrite Hi, Es. exact Hs.
 Qed.
 
-(* the theorem: ANY number of forwarding writes (each stalled or not) and Close calls, ANY schedule so far: the read lock is
-   never held across the blocking write, the write lock only by a Close that cannot block, and from wherever the system
-   stands there is a continuation in which every Close returns (so a fair scheduler completes it) *)
+(* the theorem: ANY number of forwarding copy steps (each may be starved of tokens and/or write to a stalled peer) and Close
+   calls (at least one), ANY schedule so far: the read lock is never held across the blocking write, and from wherever the
+   system stands there is a continuation in which EVERY thread has finished: every Close has returned and both copy loops
+   have ended (so Start returns) — every blocking wait of the copy loop is ended by what Close does *)
 Theorem close_completes_despite_stalled_writes ts pre :
-  forallb f_initial ts = true ->
-  let s := run _ _ (fstep false) (finit, ts) pre in
+  forallb f_initial ts = true -> existsb f_is_closer ts = true ->
+  let s := run _ _ (fstep false true) (finit, ts) pre in
   Forall f_releasing (snd s) /\
-  (exists sched, forallb (fun t => negb (f_close_pending t)) (snd (run _ _ (fstep false) s sched)) = true).
+  (exists sched, forallb f_finished (snd (run _ _ (fstep false true) s sched)) = true).
 Proof.
-  intros Hi s.
-  assert (HI : FInv s).
-  { unfold s. apply inv_all_schedules; [intros s0 i; apply finv_step|apply finv_init; exact Hi]. }
-  destruct s as [sh ls]. split; [exact (proj1 (proj2 HI))|].
-  apply (f_close_completes_from (fsum ls)); [exact HI|lia].
+  intros Hi Hc s.
+  assert (HI : FInv s /\ exists t, In t (snd s) /\ f_is_closer t = true).
+  { unfold s. apply (inv_all_schedules _ _ (fstep false true) (fun s => FInv s /\ exists t, In t (snd s) /\ f_is_closer t = true)).
+    - intros [sh ls] i [H1 H2]. split; [apply finv_step; exact H1|apply closer_preserved; exact H2].
+    - split; [apply finv_init; exact Hi|]. apply existsb_exists in Hc. exact Hc. }
+  destruct s as [sh ls]. destruct HI as [HI Hcl]. split; [exact (proj1 (proj2 HI))|].
+  apply (f_all_complete_from (fsum ls)); [exact HI|exact Hcl|lia].
 Qed.
 
 (* the read lock held across the write: a write to a stalled peer parks holding the lock, Close waits for the lock, and the
@@ -379,9 +461,22 @@ Proof. intros H sched. induction sched as [|i r IH]; cbn; [reflexivity|]. rewrit
 
 Lemma lock_held_across_write_refuted :
   exists pre,
-    let s := run _ _ (fstep true) (finit, [ {| f_stall := true; f_pc := WLock |}; {| f_stall := false; f_pc := KLock |} ]) pre in
-    (forall sched, run _ _ (fstep true) s sched = s) /\ existsb f_close_pending (snd s) = true.
+    let s := run _ _ (fstep true true) (finit, [ {| f_stall := true; f_starved := false; f_pc := WLock |};
+                                                 {| f_stall := false; f_starved := false; f_pc := KLock |} ]) pre in
+    (forall sched, run _ _ (fstep true true) s sched = s) /\ existsb f_close_pending (snd s) = true.
 Proof.
   exists [0; 0; 0; 1]. split; [|vm_compute; reflexivity].
+  apply run_fixpoint. intros [|[|i]]; [vm_compute; reflexivity|vm_compute; reflexivity|]. destruct i; vm_compute; reflexivity.
+Qed.
+
+(* the token wait not tied to the bridge context: Close runs to completion, the starved copy step sleeps on: no schedule
+   ever moves it, so the copy loop never ends and Start never returns *)
+Lemma uncancellable_token_wait_refuted :
+  exists pre,
+    let s := run _ _ (fstep false false) (finit, [ {| f_stall := false; f_starved := true; f_pc := WThrottle |};
+                                                   {| f_stall := false; f_starved := false; f_pc := KLock |} ]) pre in
+    (forall sched, run _ _ (fstep false false) s sched = s) /\ map f_pc (snd s) = [WThrottle; KDone] /\ f_cancel (fst s) = true.
+Proof.
+  exists [0; 1; 1; 1; 1]. split; [|vm_compute; auto].
   apply run_fixpoint. intros [|[|i]]; [vm_compute; reflexivity|vm_compute; reflexivity|]. destruct i; vm_compute; reflexivity.
 Qed.
